@@ -2,6 +2,9 @@ package main
 
 import (
 	"bytes"
+	"crypto/elliptic"
+	"encoding/asn1"
+	"encoding/pem"
 	"fmt"
 	"io/ioutil"
 	"math/big"
@@ -217,7 +220,7 @@ func evalLoader(args []string) string {
 		kk = kc
 	case "neg":
 		kk = privFromD(new(big.Int).Sub(sm2N, d))
-	default:
+	default: // "other", "forgedpub"
 		kk = privFromD(new(big.Int).Add(d, big.NewInt(1)))
 	}
 	certPEM, err := selfSignedPEM(kc, "sign", x509.KeyUsageDigitalSignature)
@@ -231,6 +234,13 @@ func evalLoader(args []string) string {
 	keyPEM, err := x509.WritePrivateKeyToPem(kk, nil)
 	if err != nil {
 		return "bad-op:key"
+	}
+	if args[2] == "forgedpub" {
+		// another scalar, but the optional publicKey field of the ECPrivateKey holds the CERTIFICATE's point: the
+		// key that counts is d, the public point is [d]G whatever the file claims
+		if keyPEM, err = c14ForgedPubPEM(keyPEM, kc); err != nil {
+			return "bad-op:forge:" + strings.ReplaceAll(err.Error(), " ", "_")
+		}
 	}
 	goodKeyPEM, _ := x509.WritePrivateKeyToPem(kc, nil)
 	res := func(err error) string {
@@ -359,7 +369,7 @@ func genC14(r *rng, tier string, emit func(string)) {
 		emit(fmt.Sprintf("pkcs8 %s %s %s", bhex(k.d), pw, wrong))
 		// loaders
 		kinds := []string{"x509keypair", "gmsingle", "gmpairs-sign", "gmpairs-enc", "loadfiles", "loadgmfiles"}
-		emit(fmt.Sprintf("loader %s %s %s", kinds[i%len(kinds)], bhex(k.d), []string{"same", "other", "neg"}[(i/len(kinds))%3]))
+		emit(fmt.Sprintf("loader %s %s %s", kinds[i%len(kinds)], bhex(k.d), []string{"same", "other", "neg", "forgedpub"}[(i/len(kinds))%4]))
 	}
 	// decompression of arbitrary inputs
 	for i := 0; i < n; i++ {
@@ -411,4 +421,42 @@ func evalCipherUnasn1(args []string) string {
 		return "err"
 	}
 	return hx(back)
+}
+
+// c14ForgedPubPEM rewrites an unencrypted PKCS#8 SM2 key PEM so that the publicKey field of its ECPrivateKey is the
+// point of the key `pub` (added if absent); the scalar stays what it was
+func c14ForgedPubPEM(keyPEM []byte, pub *sm2.PrivateKey) ([]byte, error) {
+	blk, _ := pem.Decode(keyPEM)
+	if blk == nil {
+		return nil, fmt.Errorf("no pem block")
+	}
+	var p8 struct {
+		Version    int
+		Algo       pkix.AlgorithmIdentifier
+		PrivateKey []byte
+	}
+	if _, err := asn1.Unmarshal(blk.Bytes, &p8); err != nil {
+		return nil, err
+	}
+	var ec struct {
+		Version       int
+		PrivateKey    []byte
+		NamedCurveOID asn1.ObjectIdentifier `asn1:"optional,explicit,tag:0"`
+		PublicKey     asn1.BitString        `asn1:"optional,explicit,tag:1"`
+	}
+	if _, err := asn1.Unmarshal(p8.PrivateKey, &ec); err != nil {
+		return nil, err
+	}
+	pt := elliptic.Marshal(sm2.P256Sm2(), pub.X, pub.Y)
+	ec.PublicKey = asn1.BitString{Bytes: pt, BitLength: 8 * len(pt)}
+	inner, err := asn1.Marshal(ec)
+	if err != nil {
+		return nil, err
+	}
+	p8.PrivateKey = inner
+	der, err := asn1.Marshal(p8)
+	if err != nil {
+		return nil, err
+	}
+	return pem.EncodeToMemory(&pem.Block{Type: blk.Type, Bytes: der}), nil
 }
